@@ -561,7 +561,14 @@ impl<T: Clone + Eq + Debug + Default> WrappedBlock<T> {
         if self.word.is_empty() {
             std::mem::take(&mut self.word).v
         } else {
-            Default::default()
+            // Markers after the last text of the word belong to whatever
+            // comes next, too (left in the word they are lost when the word
+            // is hard-wrapped with nothing after them).
+            let mut n = self.word.v.len();
+            while n > 0 && !self.word.v[n - 1].has_content() {
+                n -= 1;
+            }
+            self.word.v.split_off(n)
         }
     }
 
